@@ -110,6 +110,12 @@ class Translator:
                 return ("(sv_op %s %s %s)" % (op, a, b), "V")
             if ta == "V" and tb == "V":
                 return ("(map2 %s %s %s)" % (op, a, b), "V")
+            if ta == "T" and tb == "S":
+                return ("(map (fun r_ => vs_op %s r_ %s) %s)" % (op, b, a), "T")
+            if ta == "S" and tb == "T":
+                return ("(map (fun r_ => sv_op %s %s r_) %s)" % (op, a, b), "T")
+            if ta == "T" and tb == "T":
+                return ("(map2 (map2 %s) %s %s)" % (op, a, b), "T")
             raise Untranslatable("binop on %s,%s in %s" % (ta, tb, _src(e)))
         if isinstance(e, ast.Call):
             return self.call(e, env)
@@ -126,9 +132,9 @@ class Translator:
         fname = _src(f)
         if fname == "len" and len(e.args) == 1 and not e.keywords:
             t, ty = self.expr(e.args[0], env)
-            if ty != "V":
+            if ty not in ("V", "T"):
                 raise Untranslatable("len of %s" % ty)
-            return ("(length %s)" % t, "N")
+            return ("(length %s)" % t, "N")     # len of a tensor = its leading dimension (T = list of rows)
         if fname == "float" and len(e.args) == 1 and not e.keywords:
             t, ty = self.expr(e.args[0], env)
             return self.to_field(t, ty)
@@ -140,6 +146,13 @@ class Translator:
                     return ("(fsum %s)" % t, "S")
                 if meth == "mean" and not e.args and not e.keywords and ty == "V":
                     return ("(fmean %s)" % t, "S")
+                # T = tensor of rank >= 1 given as the list of its rows along the leading dimension
+                if meth == "sum" and not e.args and not e.keywords and ty == "T":
+                    return ("(fsum (concat %s))" % t, "S")
+                if meth == "mean" and not e.args and not e.keywords and ty == "T":
+                    return ("(fmean (concat %s))" % t, "S")
+                if meth == "reshape" and len(e.args) == 1 and _src(e.args[0]) == "-1" and ty == "T":
+                    return ("(concat %s)" % t, "V")
                 if meth in ("detach", "clone", "float") and not e.args and not e.keywords:
                     return (t, ty)     # value-level identity (gradient flow is outside this translation)
                 if meth == "reshape" and len(e.args) == 1 and _src(e.args[0]) == "-1" and ty == "V":
@@ -310,7 +323,7 @@ class Translator:
     def run(self):
         env = {"__ctr__": [0]}
         binders = []
-        tymap = {"S": "K", "V": "list K", "N": "nat", "O": "option K", "B": "bool"}
+        tymap = {"S": "K", "V": "list K", "T": "list (list K)", "N": "nat", "O": "option K", "B": "bool"}
         for c, (v, ty) in self.u.consts.items():
             binders.append("(%s : %s)" % (v, tymap[ty]))
         for a, ty in self.u.state.items():
